@@ -46,9 +46,10 @@ CHECKS = {
         "model on cheap cases.",
    ref="DESIGN.md section 3 C05 and 12.2", technique="Coq proof (model Sign = specification) + differential execution vs independent Sign_internal"),
  "C06": dict(
-   text="Coq theorems (all keys bytes, messages, modes, tapes, fuel): whatever the model's signer returns is the packing of (z, h) of an attempt that passed all four tests on the signer's "
-        "intermediates, hence ||z|| < gamma1-beta, h a 0/1 vector of weight <= omega, low-bits vector < gamma2-beta, c*t0 vector < gamma2; rejected attempts were rejected for a stated reason. "
-        "Identification of the intermediates with LowBits(Ay - c s2), c t0 and the challenge hash is by execution: every crate signature (all modes incl. real RNG; crafted keys) is decoded by an "
+   text="Coq theorems: for every key from key generation, message and mode, whatever the signer returns is sigEncode(ctilde, z, h) of an attempt of the SPECIFICATION with z = y + c s1, "
+        "||z|| < gamma1-beta, ||LowBits(A y - c s2)|| < gamma2-beta, ||c t0|| < gamma2, h = MakeHint(-c t0, .) of weight <= omega and ctilde = H(mu || w1Encode(HighBits(A y))) (PEmitted, via "
+        "PSignSpec); for ANY key bytes the emitted (z, h) passed the four tests on the signer's intermediates and rejected attempts were rejected for a stated reason. "
+        "Tied to the code by execution: every crate signature (all modes incl. real RNG; crafted keys) is decoded by an "
         "independent decoder and all conditions recomputed with the secret key; ~80 000 signatures per run structurally checked in the harness.",
    ref="DESIGN.md section 3 C06", technique="Coq proofs (inversion of the signer + norm exactness) + independent recomputation on crate signatures"),
  "C07": dict(
